@@ -331,6 +331,13 @@ def configs(tier):
     from harness.c08 import option_flow
     add("callable/solve_ivp/bck_options", option_flow, case="bck_options")
     add("callable/solve_ivp/sequence", option_flow, case="sequence")
+    # the solution produced by a built-in root solver that stops at once (warm start exactly on the root) must give the same
+    # gradients as any other way of producing it (scenario shared with C04)
+    from harness.c04 import ift1d
+    for m in ("broyden1", "newton"):
+        add("builtin_warm_start_on_root/rootfinder/%s/2nd" % m, ift1d, entry="rootfinder", placement="explicit", second=True, warm=m)
+    add("builtin_warm_start_on_root/rootfinder/broyden1/y0_constant", ift1d, entry="rootfinder", placement="explicit",
+        second=False, warm="broyden1", y0_grad=False)
     add("callable/quad", quad_callable)
     add("callable/mcquad", mcquad_callable)
     add("callable/interp_squad", interp_squad_callable)
